@@ -38,7 +38,16 @@ fn gen_ty(rng: &mut Rng, depth: usize) -> Ty {
             let n = rng.below(4);
             Ty::Tuple((0..n).map(|_| gen_ty(rng, depth - 1)).collect())
         }
-        6 => Ty::Map(Box::new(if rng.chance(1, 4) { Ty::Int(true, 32) } else { Ty::String }), Box::new(gen_ty(rng, depth - 1))),
+        6 => {
+            let kt = match rng.below(8) {
+                0 | 1 => Ty::Int(true, 32),
+                2 => Ty::Tuple(vec![Ty::Int(true, 32), Ty::String]),
+                3 => Ty::Seq(Box::new(Ty::Int(false, 8))),
+                4 => Ty::Tuple(vec![Ty::Int(true, 32), Ty::Int(true, 32)]),
+                _ => Ty::String,
+            };
+            Ty::Map(Box::new(kt), Box::new(gen_ty(rng, depth - 1)))
+        }
         7 | 8 => {
             let n = 1 + rng.below(3);
             let fields = FIELD_NAMES[..n].iter().map(|f| (f.to_string(), gen_ty(rng, depth - 1))).collect();
@@ -221,7 +230,8 @@ fn mutate_node(rng: &mut Rng, n: &Node) -> Node {
         match n {
             Node::Seq { items, flow, tag, anchor } => Node::Seq { items: items.iter().map(|i| go(rng, i, target)).collect(), flow: *flow, tag: tag.clone(), anchor: anchor.clone() },
             Node::Map { entries, flow, anchor } => {
-                Node::Map { entries: entries.iter().map(|(k, v)| (k.clone(), { *target -= 0; go(rng, v, target) })).collect(), flow: *flow, anchor: anchor.clone() }
+                // keys are positions too: a complex key with a surplus element must not be accepted
+                Node::Map { entries: entries.iter().map(|(k, v)| { let k2 = go(rng, k, target); (k2, go(rng, v, target)) }).collect(), flow: *flow, anchor: anchor.clone() }
             }
             other => other.clone(),
         }
@@ -452,6 +462,31 @@ pub fn run(ctx: &mut Ctx) {
         (Ty::Seq(Box::new(e.clone())), Node::Seq { items: vec![sc("Cee", Sty::Plain), Node::Seq { items: vec![sc("1", Sty::Plain), sc("2", Sty::Plain)], flow: true, tag: None, anchor: None }], flow: false, tag: None, anchor: None }, 1),
         (Ty::Seq(Box::new(e.clone())), Node::Seq { items: vec![sc("D", Sty::Plain), Node::Map { entries: vec![(sc("a", Sty::Plain), sc("1", Sty::Plain))], flow: true, anchor: None }], flow: false, tag: None, anchor: None }, 1),
     ];
+    // complex mapping keys are positions too (F59: a surplus element of a recorded key was dropped silently)
+    {
+        let i32t = Ty::Int(true, 32);
+        let fseq = |items: Vec<Node>| Node::Seq { items, flow: true, tag: None, anchor: None };
+        let n = |t: &str| sc(t, Sty::Plain);
+        let key_tys = [Ty::Tuple(vec![i32t.clone(), i32t.clone()]), Ty::Tuple(vec![i32t.clone(), Ty::String]), Ty::Seq(Box::new(Ty::Int(false, 8))),
+            Ty::Tuple(vec![i32t.clone(), Ty::Tuple(vec![i32t.clone(), i32t.clone()])]), Ty::Tuple(vec![i32t.clone()]), Ty::Tuple(vec![])];
+        let keys = [fseq(vec![n("1"), n("2")]), fseq(vec![n("1"), n("2"), n("3")]), fseq(vec![n("1")]), fseq(vec![]),
+            fseq(vec![n("1"), fseq(vec![n("2"), n("3")])]), fseq(vec![n("1"), fseq(vec![n("2"), n("3"), n("4")])]),
+            fseq(vec![n("1"), fseq(vec![n("2"), n("3")]), n("4")]), fseq(vec![n("1"), n("x")]), fseq(vec![n("1"), n("x"), n("y")]),
+            Node::Map { entries: vec![(n("1"), n("2"))], flow: true, anchor: None }, n("1")];
+        for kt in &key_tys {
+            for k in &keys {
+                for flow in [true, false] {
+                    for second in [false, true] {
+                        let mut entries = vec![(k.clone(), n("5"))];
+                        if second {
+                            entries.push((fseq(vec![n("7"), n("8")]), n("6")));
+                        }
+                        pairs.push((Ty::Map(Box::new(kt.clone()), Box::new(i32t.clone())), Node::Map { entries, flow, anchor: None }, 1));
+                    }
+                }
+            }
+        }
+    }
     for _ in 0..n {
         let ty = gen_ty(&mut rng, 3);
         let mut node = gen_node(&mut rng, &ty);
